@@ -389,7 +389,7 @@ def tstr(t, depth=0):
             nm = "%s %s" % (t[1][0], str(t[1][1]).split("::", 1)[-1])
         return "%s{%s}" % (nm, ", ".join(tstr(a, d) for a in t[2]))
     if k == "phi":
-        return "phi(bb%d,_%d)" % (t[1], t[2])
+        return "phi(bb%s,_%s)" % (t[1], t[2])
     if k == "cast":
         return "(%s as %s)" % (tstr(t[3], d), t[2])
     if k == "discr":
@@ -427,10 +427,13 @@ class Interp:
     MAX_STATES = 20000
     MAX_PER_BLOCK = 3000
 
-    def __init__(self, body, program=None, axioms=None, pure=None, param_names=True, inline=None, hooks=None, uid_prefix=(), parent=None, assume=None):
+    def __init__(self, body, program=None, axioms=None, pure=None, param_names=True, inline=None, hooks=None, uid_prefix=(), parent=None, assume=None, features=None):
         self.body = body
         self.program = program
         self.inline = inline or set()
+        # opt-in normalisations: 'comb' (Option/bool combinators with closures as case splits), 'fncall' (calls of
+        # known closure values), 'opassign' (x op= y on type parameters as x := x op y)
+        self.features = frozenset(features or ())
         self.record_index_reads = False
         self._upvar_refs = set()
         self._env_place = None
@@ -846,6 +849,9 @@ class Interp:
                     return v_
         if "uneval" in o:
             u = o["uneval"]
+            v_ = self._const_body_value(u)
+            if v_ is not None:
+                return v_
             t = ("assoc", u.get("trait") or u["path"], u.get("assoc_name"), tuple(u["args"]), u.get("promoted"))
             self.tys[t] = o["ty"]
             return t
@@ -854,6 +860,35 @@ class Interp:
         if "static" in o:
             return ("ref", ("static", o["static"]))
         return ("cst", o["text"], o["ty"])
+
+    def _const_body_value(self, u):
+        """value of a (generic) constant item of the program from its own body, when the body is one
+        straight path of pure arithmetic over literals and the item's own generic parameters"""
+        if u.get("promoted") is not None or u.get("trait") or not u.get("def"):
+            return None
+        import re
+
+        if not all(re.match(r"^[A-Z]\w*$", str(a)) for a in u.get("args", ())):
+            return None  # instantiated with concrete arguments: no substitution attempted
+        crate = self.body.crate
+        cb = crate.by_key.get(u["def"])
+        if cb is None:
+            prog = getattr(crate, "program", None)
+            cb = prog.by_key.get(u["def"]) if prog is not None else None
+        if cb is None or "Const" not in str(cb.kind) or cb.key == self.body.key:
+            return None
+        memo = crate.__dict__.setdefault("_const_values", {})
+        if cb.key not in memo:
+            memo[cb.key] = None
+            try:
+                I = Interp(cb, self.program).run()
+                if len(I.final_states) == 1:
+                    r = I.final_states[0].env.get(0)
+                    if r is not None and r[0] in ("int", "bin", "un", "cast", "gparam") and not mentions(r, lambda s_: s_[0] in ("local", "param", "call", "load", "mem", "after", "ref", "agg")):
+                        memo[cb.key] = r
+            except Exception:  # noqa: BLE001
+                memo[cb.key] = None
+        return memo[cb.key]
 
     def operand(self, st, o):
         k = o["k"]
@@ -977,7 +1012,55 @@ class Interp:
                     return True
         return False
 
+    _REF_BLANKET = _re.compile(r"^std::cmp::impls::<impl std::cmp::(PartialOrd|PartialEq)<&(mut )?B> for &(mut )?A>::(\w+)$")
+
+    def _through_ref_blanket(self, st, t):
+        """`a <= b` on references goes through std's `impl PartialOrd<&B> for &A`, which forwards to the
+        referents' impl: when that impl is a body of the program, the call is presented as the direct
+        call `<A as PartialOrd<B>>::le(*a, *b)` (same event, same facts as the method-call spelling)"""
+        fn = t["fn"]
+        res = fn.get("resolved") or {}
+        m = self._REF_BLANKET.match(res.get("path") or "")
+        if not m or len(t["args"]) != 2:
+            return None
+        inner = [str(x) for x in (fn.get("args") or [])]
+        if len(inner) != 2 or not all(x.startswith("&") for x in inner):
+            return None
+        a_ty, b_ty = (x[1:].lstrip() for x in inner)
+        a_ty = a_ty[4:] if a_ty.startswith("mut ") else a_ty
+        b_ty = b_ty[4:] if b_ty.startswith("mut ") else b_ty
+        crate = self.body.crate
+        prog = getattr(crate, "program", None)
+        target = None
+        for c in (prog.crates.values() if prog is not None else [crate]):
+            for b in c.bodies:
+                if b.name != fn.get("name") or b.is_closure:
+                    continue
+                imp = c.impl_of(b)
+                if imp is not None and imp.get("trait") == fn.get("trait") and imp.get("self_ty") == a_ty and not imp.get("derived"):
+                    ta = [str(x) for x in (imp.get("trait_args") or [])]
+                    if not ta or ta[-1] == b_ty or len(ta) == 1:
+                        target = b
+        if target is None:
+            return None
+        ops = []
+        for o in t["args"]:
+            v = self.operand(st.fork(), o)
+            if not (isinstance(v, tuple) and v and v[0] == "ref" and v[1][0] == "local" and len(v[1]) == 2):
+                return None
+            n = v[1][1]
+            ops.append({"k": "copy", "place": {"l": n, "p": [], "ty": self.body.locals[n]["ty"]}})
+        nfn = dict(fn)
+        nfn["args"] = [a_ty, b_ty]
+        nfn["self_ty"] = a_ty
+        nfn["resolved"] = {"def": target.key, "path": target.path, "krate": target.crate.name, "local": True, "kind": "item", "args": [], "is_closure": False}
+        nt = dict(t)
+        nt["fn"] = nfn
+        nt["args"] = ops
+        return nt
+
     def call(self, st, t, bb):
+        t = self._through_ref_blanket(st, t) or t
         fn = t["fn"]
         args = tuple(self.operand(st, a) for a in t["args"])
         gpath, rpath, trait, name = fn_names(fn)
@@ -988,9 +1071,20 @@ class Interp:
         mem_before = st.mem
         argtys0 = [effects._op_ty(self.body, a) for a in t["args"]]
         argvals = tuple(self.read_pl(st, a[1]) if (isinstance(a, tuple) and a and a[0] == "ref" and place_is_local(a[1])) else None for a in args)
+        comb = None
+        if "comb" in self.features:
+            comb = COMBINATORS.get(key) or COMBINATORS.get(gpath)
+        if comb is None and "fncall" in self.features and trait:
+            comb = COMBINATORS.get((trait, name))
+        if comb is not None and key not in self.extra_axioms and gpath not in self.extra_axioms and t["target"] is not None and len(self.uid_prefix) < 3:
+            outs = comb(self, st, t, bb, fn, args, key, argtys0)
+            if outs is not None:
+                return outs
         ax = self.extra_axioms.get(key) or self.extra_axioms.get(gpath) or AXIOMS.get(key) or AXIOMS.get(gpath)
         if ax is None and trait:
             ax = self.extra_axioms.get((trait, name)) or AXIOMS.get((trait, name))
+        if ax is None and trait and "opassign" in self.features and trait.split("::")[-1] in _OP_ASSIGN:
+            ax = ax_generic_op_assign
         if ax is not None:
             r = ax(self, st, fn, args, bb)
             if r is not NotImplemented:
@@ -1011,14 +1105,7 @@ class Interp:
                                 pure = False
         if not handled:
             if pure:
-                # closures are compared by their canonical signature, not by identity
-                cargs = tuple(_canon_closures(self._ref_values(st, a)) for a in args)
-                places = [s_[1] for a in args for s_ in subterms(a) if s_[0] in ("ref", "optref")]
-                reads_mem = bool(places) or any(mentions(a, lambda s: s[0] in ("load", "deref")) for a in args)
-                if not reads_mem:
-                    res = ("call", key, cargs, None)
-                else:
-                    res = ("call", key, cargs + (("mem", self.reduce_mem(st.mem, places)),), None)
+                res = self.pure_term(st, key, args)
             else:
                 res = ("call", key, args, uid)
         ev = Event("call", bb, callee=key, fn=fn, args=args, res=res, state=(st.facts, mem_before, st.path), extra={"pure": pure, "handled": handled, "dest": t["dest"], "name": name, "trait": trait, "gpath": gpath, "argvals": argvals, "argtys": argtys0, "in": self.body.path if self.parent is not None else None, "uid": uid})
@@ -1051,11 +1138,83 @@ class Interp:
             h(self, st, fn, args, bb, res, ev)
         return [st]
 
+    def pure_term(self, st, key, args):
+        """the term of a pure call: a function of its arguments and of the memory they can reach"""
+        # closures are compared by their canonical signature, not by identity
+        cargs = tuple(_canon_closures(self._ref_values(st, a)) for a in args)
+        places = [s_[1] for a in args for s_ in subterms(a) if s_[0] in ("ref", "optref")]
+        reads_mem = bool(places) or any(mentions(a, lambda s: s[0] in ("load", "deref")) for a in args)
+        if not reads_mem:
+            return ("call", key, cargs, None)
+        return ("call", key, cargs + (("mem", self.reduce_mem(st.mem, places)),), None)
+
+    def _apply_closure(self, st, bb, clos, cargs):
+        """run a closure value on argument terms in the caller's state: [(state, result)] or None when the
+        closure cannot be followed (not a closure aggregate of this crate, captures caller locals by &mut)"""
+        if not (isinstance(clos, tuple) and clos and clos[0] == "agg" and isinstance(clos[1], tuple) and clos[1] and clos[1][0] == "closure"):
+            return None
+        cb = self.body.crate.by_key.get(clos[1][1])
+        if cb is None or len(self.uid_prefix) >= 3:
+            return None
+        cv = self._ref_values(st, clos)
+        cargs = tuple(self._ref_values(st, a) for a in cargs)
+        if any(_exposes_local(a) for a in (cv,) + cargs):
+            return None
+        envty = str(cb.locals[1]["ty"]) if len(cb.locals) > 1 else ""
+        env = {1: ("ref", ("constval", cv)) if envty.startswith("&") else cv}
+        for i, a in enumerate(cargs):
+            env[i + 2] = a
+        root = self
+        while root.parent is not None:
+            root = root.parent
+        sub = Interp(cb, self.program, axioms=self.extra_axioms, pure=self.extra_pure, inline=self.inline, hooks=self.hooks, uid_prefix=self.uid_prefix + (bb,), parent=self, param_names=None, features=self.features)
+        sub.tys = self.tys
+        sub.record_index_reads = self.record_index_reads
+        st0 = State(env, st.mem, st.facts, st.events, st.path, ())
+        st0.nevents = st.nevents
+        sub.run(st0)
+        root.nstates += sub.nstates
+        if root.nstates > self.MAX_STATES:
+            raise Budget("%s: more than %d abstract states (with closure inlining)" % (root.body.path, self.MAX_STATES))
+        if sub.unsupported:
+            return None
+        outs = []
+        for fs in sub.final_states:
+            ns = st.fork()
+            ns.mem, ns.facts, ns.events, ns.nevents = fs.mem, fs.facts, fs.events, fs.nevents
+            outs.append((ns, fs.env.get(0, UNIT)))
+        for ds in sub.diverged:
+            self.diverged.append(ds)
+        for l in sub.backedge_states.values():
+            self.inl_back.extend(l)
+        self.inl_back.extend(sub.inl_back)
+        return outs
+
+    def _finish_comb(self, t, bb, outs):
+        """write each (state, result) to the call's destination"""
+        res = []
+        for ns, r in outs:
+            dest = self.place_term(ns, t["dest"])
+            self.write_pl(ns, dest, r, bb, None, record=not place_is_local(dest))
+            res.append(ns)
+        return res
+
+    def _split_on(self, st, d, v):
+        """the state refined by d == v, or None when infeasible"""
+        if is_int(d):
+            return st.fork() if d[1] == v else None
+        f = ("eq", d, v)
+        if self._contradicts(st.facts, f):
+            return None
+        ns = st.fork()
+        ns.add_fact(f)
+        return ns
+
     def _inline(self, st, t, bb, callee, args, ev):
         root = self
         while root.parent is not None:
             root = root.parent
-        sub = Interp(callee, self.program, axioms=self.extra_axioms, pure=self.extra_pure, inline=self.inline, hooks=self.hooks, uid_prefix=self.uid_prefix + (bb,), parent=self)
+        sub = Interp(callee, self.program, axioms=self.extra_axioms, pure=self.extra_pure, inline=self.inline, hooks=self.hooks, uid_prefix=self.uid_prefix + (bb,), parent=self, features=self.features)
         sub.tys = self.tys
         sub.record_index_reads = self.record_index_reads
         env = {}
@@ -1548,8 +1707,164 @@ def ax_next(I, st, fn, args, bb):
 
 INT_TYS = {"u8", "u16", "u32", "u64", "u128", "usize", "i8", "i16", "i32", "i64", "i128", "isize"}
 
+_OP_ASSIGN = {"AddAssign": "Add::add", "SubAssign": "Sub::sub", "MulAssign": "Mul::mul", "DivAssign": "Div::div", "RemAssign": "Rem::rem",
+              "BitAndAssign": "BitAnd::bitand", "BitOrAssign": "BitOr::bitor", "BitXorAssign": "BitXor::bitxor", "ShlAssign": "Shl::shl", "ShrAssign": "Shr::shr"}
+
+
+def ax_generic_op_assign(I, st, fn, args, bb):
+    """`x op= y` on a type parameter (the trait call cannot be resolved to an impl): x := x op y, the
+    lawful-operator assumption already made for the generic arithmetic of these crates"""
+    if "opassign" not in I.features or fn.get("resolved") is not None or len(args) != 2:
+        return NotImplemented
+    tr = (fn.get("trait") or "").split("::")[-1]
+    op = _OP_ASSIGN.get(tr)
+    a0 = args[0]
+    if op is None or not (isinstance(a0, tuple) and a0 and a0[0] == "ref"):
+        return NotImplemented
+    pl = a0[1]
+    old = I.read_pl(st, pl)
+    I.write_pl(st, pl, I.pure_term(st, "std::ops::" + op, (old, args[1])), bb, None, record=not place_is_local(pl))
+    return UNIT
+
+
+def _exposes_local(t):
+    """the value gives access to a caller local as a place (a reference, possibly inside an aggregate); a local
+    that is merely mentioned inside the identity of an opaque call result is never read through"""
+    if not isinstance(t, tuple) or not t:
+        return False
+    if t[0] in ("ref", "optref"):
+        return place_is_local(t[1])
+    if t[0] == "agg":
+        return any(_exposes_local(x) for x in t[2])
+    return False
+
+
+def _comb_event(I, st, bb, fn, args, key):
+    gpath, rpath, trait, name = fn_names(fn)
+    st.add_event(Event("call", bb, callee=key, fn=fn, args=args, res=None, state=(st.facts, st.mem, st.path), extra={"pure": True, "handled": True, "inlined": True, "combinator": True, "name": name, "trait": trait, "gpath": gpath, "argvals": (), "argtys": [], "in": I.body.path if I.parent is not None else None, "uid": I.uid(bb)}))
+
+
+def _payload(I, st, o, bb):
+    return ax_unwrap(I, st, None, (o,), bb)
+
+
+def comb_option(kind):
+    """Option::map / and_then / map_or / map_or_else / unwrap_or_else with a closure of the crate: the call is
+    the case split on the discriminant with the closure's body run on the payload (what `match` compiles to)"""
+
+    def comb(I, st, t, bb, fn, args, key, argtys):
+        o = args[0]
+        d = mk_discr(o)
+        if kind in ("map", "and_then"):
+            f_some, f_none, dflt = args[1], None, None
+        elif kind == "map_or":
+            dflt, f_some, f_none = args[1], args[2], None
+        elif kind == "map_or_else":
+            f_none, f_some, dflt = args[1], args[2], None
+        else:  # unwrap_or_else
+            f_none, f_some, dflt = args[1], None, None
+        outs = []
+        probe = st.fork()
+        _comb_event(I, probe, bb, fn, args, key)
+        # None side
+        s0 = I._split_on(probe, d, 0)
+        if s0 is not None:
+            if kind in ("map", "and_then"):
+                outs.append((s0, NONE))
+            elif kind == "map_or":
+                outs.append((s0, dflt))
+            else:
+                r = I._apply_closure(s0, bb, f_none, ())
+                if r is None:
+                    return None
+                outs.extend(r)
+        s1 = I._split_on(probe, d, 1)
+        if s1 is not None:
+            pay = _payload(I, s1, o, bb)
+            if f_some is None:
+                outs.append((s1, pay))
+            else:
+                r = I._apply_closure(s1, bb, f_some, (pay,))
+                if r is None:
+                    return None
+                for ns, v in r:
+                    outs.append((ns, mk_some(v) if kind == "map" else v))
+        return I._finish_comb(t, bb, outs)
+
+    return comb
+
+
+def comb_bool_then(I, st, t, bb, fn, args, key, argtys):
+    c, f = args[0], args[1]
+    outs = []
+    probe = st.fork()
+    _comb_event(I, probe, bb, fn, args, key)
+    s0 = I._split_on(probe, c, 0)
+    if s0 is not None:
+        outs.append((s0, NONE))
+    s1 = I._split_on(probe, c, 1)
+    if s1 is not None:
+        r = I._apply_closure(s1, bb, f, ())
+        if r is None:
+            return None
+        outs.extend((ns, mk_some(v)) for ns, v in r)
+    return I._finish_comb(t, bb, outs)
+
+
+def comb_bool_then_some(I, st, t, bb, fn, args, key, argtys):
+    c, v = args[0], args[1]
+    outs = []
+    probe = st.fork()
+    _comb_event(I, probe, bb, fn, args, key)
+    s0 = I._split_on(probe, c, 0)
+    if s0 is not None:
+        outs.append((s0, NONE))
+    s1 = I._split_on(probe, c, 1)
+    if s1 is not None:
+        outs.append((s1, mk_some(v)))
+    return I._finish_comb(t, bb, outs)
+
+
+def comb_fn_call(I, st, t, bb, fn, args, key, argtys):
+    """`f(x)` where f is a closure value known in this state (a closure handed to an inlined helper):
+    the closure's body is run on the arguments"""
+    if len(args) != 2:
+        return None
+    f = args[0]
+    if isinstance(f, tuple) and f and f[0] == "ref":
+        pl = f[1]
+        f = pl[1] if pl[0] == "constval" else I.read_pl(st, pl)
+    tup = args[1]
+    if not (isinstance(tup, tuple) and tup and tup[0] == "agg" and tup[1] == "tuple"):
+        return None
+    if not (isinstance(f, tuple) and f and f[0] == "agg" and isinstance(f[1], tuple) and f[1] and f[1][0] == "closure"):
+        return None
+    probe = st.fork()
+    r = I._apply_closure(probe, bb, f, tuple(tup[2]))
+    if r is None:
+        return None
+    return I._finish_comb(t, bb, r)
+
+
+COMBINATORS = {
+    ("std::ops::Fn", "call"): comb_fn_call,
+    ("std::ops::FnMut", "call_mut"): comb_fn_call,
+    ("std::ops::FnOnce", "call_once"): comb_fn_call,
+    "std::option::Option::<T>::map": comb_option("map"),
+    "std::option::Option::<T>::and_then": comb_option("and_then"),
+    "std::option::Option::<T>::map_or": comb_option("map_or"),
+    "std::option::Option::<T>::map_or_else": comb_option("map_or_else"),
+    "std::option::Option::<T>::unwrap_or_else": comb_option("unwrap_or_else"),
+    "core::bool::<impl bool>::then": comb_bool_then,
+    "std::bool::<impl bool>::then": comb_bool_then,
+    "core::bool::<impl bool>::then_some": comb_bool_then_some,
+    "std::bool::<impl bool>::then_some": comb_bool_then_some,
+}
+
+
 AXIOMS = {
     ("std::ops::Index", "index"): ax_index,
+
     ("std::ops::IndexMut", "index_mut"): ax_index,
     ("std::ops::Deref", "deref"): ax_deref,
     ("std::ops::DerefMut", "deref_mut"): ax_deref,
